@@ -1,6 +1,7 @@
 package props
 
 import (
+	"strings"
 	"fmt"
 	"time"
 
@@ -49,7 +50,11 @@ type L1Env struct {
 	Denoms  []string
 }
 
-var defaultDenoms = []string{"uinit", "uusdc", "ibc/27394FB092D2ECCD56123C74F36E4C1F926001CEADA9CA97EA622B25F41E5EB2"}
+// two denoms of the maximum length the SDK allows (128), sharing their first 120 characters
+var longDenomA = "move/" + strings.Repeat("0123456789abcdef", 7) + "xyz" + "AAAAAAAA"
+var longDenomB = "move/" + strings.Repeat("0123456789abcdef", 7) + "xyz" + "BBBBBBBB"
+
+var defaultDenoms = []string{"uinit", "uusdc", "ibc/27394FB092D2ECCD56123C74F36E4C1F926001CEADA9CA97EA622B25F41E5EB2", longDenomA, longDenomB}
 
 const userFunds = 1_000_000_000_000
 
